@@ -763,7 +763,10 @@ private:
 
     if (config.rotation_frequency() == RotatingFileSinkConfig::RotationFrequency::Daily)
     {
-      return rotation_timestamp_ns + std::chrono::nanoseconds{std::chrono::hours{24}}.count();
+      // The daily rotation happens at the configured time of the day: the next rotation is the next
+      // occurrence of that time after this timestamp, not 24 hours after the record that triggered
+      // the rotation (which drifts away from the configured time after any gap in the records)
+      return _calculate_initial_rotation_tp(rotation_timestamp_ns, config);
     }
 
     QUILL_THROW(QuillError{"Invalid rotation frequency"});
